@@ -1,6 +1,177 @@
-(* C04 — property theorems only (placeholder until the meta-theory files land). *)
-From GL Require Import Common.Bytes Lua.Syntax Lua.Values Lua.Eval Lua.Run Lua.EvalFacts.
+(* C04 — property theorems only. Metamethod selection in the reference evaluator: for all states
+   (metatable graphs), operands, fuel, and all behaviours of the handler (an arbitrary call). *)
+From GL Require Import Common.Bytes Lua.Syntax Lua.Num Lua.Values Lua.Names Lua.Eval
+  Lua.MonadFacts Lua.EvalStepFacts Lua.MetaFacts.
 
-Theorem adjust_spec : forall n vs, length (adjust n vs) = n /\ forall i, (i < n)%nat -> nth i (adjust n vs) VNil = nth i vs VNil.
-Proof. exact adjust_spec_lemma. Qed.
-Print Assumptions adjust_spec.
+(* indexing: raw table first *)
+Theorem index_raw_first : forall n fr r k d s,
+  is_nil (rawget_of s r k) = false ->
+  index (S n) fr (VTab r) k (S d) s = Ret (rawget_of s r k) s.
+Proof. exact index_raw_first_lemma. Qed.
+Print Assumptions index_raw_first.
+
+Theorem index_absent_follows_chain : forall n fr r k d s,
+  is_nil (rawget_of s r k) = true ->
+  index (S n) fr (VTab r) k (S d) s =
+  match metafield s (VTab r) s_mm_index with
+  | VNil => Ret VNil s
+  | VFun _ | VBuiltin _ => first_of (call n fr (metafield s (VTab r) s_mm_index) [VTab r; k] s)
+  | h => index n fr h k d s
+  end.
+Proof. exact index_absent_lemma. Qed.
+Print Assumptions index_absent_follows_chain.
+
+Theorem index_nontable : forall n fr v k d s, is_tab v = false ->
+  index (S n) fr v k (S d) s =
+  match metafield s v s_mm_index with
+  | VNil => Err (VFault 1 (frames_line fr)) s
+  | VFun _ | VBuiltin _ => first_of (call n fr (metafield s v s_mm_index) [v; k] s)
+  | h => index n fr h k d s
+  end.
+Proof. exact index_nontable_lemma. Qed.
+Print Assumptions index_nontable.
+
+(* assignment: __newindex only for absent keys *)
+Theorem newindex_only_absent : forall n fr r k x d s,
+  is_nil (rawget_of s r k) = false -> valid_key k = true ->
+  setindex (S n) fr (VTab r) k x (S d) s = Ret tt (rawset_state s r k x).
+Proof. exact newindex_present_lemma. Qed.
+Print Assumptions newindex_only_absent.
+
+Theorem newindex_absent_follows_chain : forall n fr r k x d s,
+  is_nil (rawget_of s r k) = true ->
+  setindex (S n) fr (VTab r) k x (S d) s =
+  match metafield s (VTab r) s_mm_newindex with
+  | VNil => if valid_key k then Ret tt (rawset_state s r k x) else Err (VFault 6 (frames_line fr)) s
+  | VFun _ | VBuiltin _ => unit_of (call n fr (metafield s (VTab r) s_mm_newindex) [VTab r; k; x] s)
+  | h => setindex n fr h k x d s
+  end.
+Proof. exact newindex_absent_lemma. Qed.
+Print Assumptions newindex_absent_follows_chain.
+
+(* arithmetic, concatenation, unary minus: left operand's handler, else the right's; operands in
+   source order; first result *)
+Theorem arith_left_then_right : forall n fr o a b s,
+  is_arith o = true -> both_num a b = false -> some_out a b = false ->
+  binop_v (S n) fr o a b s =
+  let h := if is_nil (metafield s a (arith_event o)) then metafield s b (arith_event o)
+           else metafield s a (arith_event o) in
+  if is_nil h then Err (VFault 2 (frames_line fr)) s else first_of (call n fr h [a; b] s).
+Proof. exact arith_left_then_right_lemma. Qed.
+Print Assumptions arith_left_then_right.
+
+Theorem arith_numbers_no_handler : forall n fr o a b x y s,
+  is_arith o = true -> tonum a = CNum x -> tonum b = CNum y ->
+  binop_v (S n) fr o a b s = match arith_op o x y with Some r => Ret (VNum r) s | None => Unsup 1 end.
+Proof. exact arith_numbers_lemma. Qed.
+Print Assumptions arith_numbers_no_handler.
+
+Theorem concat_left_then_right : forall n fr a b s,
+  strnum a && strnum b = false -> is_fault a = false -> is_fault b = false ->
+  binop_v (S n) fr OConcat a b s =
+  let h := if is_nil (metafield s a s_mm_concat) then metafield s b s_mm_concat else metafield s a s_mm_concat in
+  if is_nil h then Err (VFault 5 (frames_line fr)) s else first_of (call n fr h [a; b] s).
+Proof. exact concat_left_then_right_lemma. Qed.
+Print Assumptions concat_left_then_right.
+
+Theorem unm_handler : forall n fr a s, tonum a = CNo ->
+  unop_v (S n) fr ONeg a s =
+  if is_nil (metafield s a s_mm_unm) then Err (VFault 2 (frames_line fr)) s
+  else first_of (call n fr (metafield s a s_mm_unm) [a; a] s).
+Proof. exact unm_handler_lemma. Qed.
+Print Assumptions unm_handler.
+
+(* equality *)
+Theorem eq_raw_equal_no_handler : forall n fr a b s, raweq a b = true -> eq_v (S n) fr a b s = Ret true s.
+Proof. exact eq_raw_equal_lemma. Qed.
+Print Assumptions eq_raw_equal_no_handler.
+
+Theorem eq_only_same_type : forall n fr a b s,
+  raweq a b = false -> eq_candidates a b = false -> eq_v (S n) fr a b s = Ret false s.
+Proof. exact eq_other_types_lemma. Qed.
+Print Assumptions eq_only_same_type.
+
+Theorem eq_only_same_handler : forall n fr a b s,
+  raweq a b = false -> eq_candidates a b = true ->
+  eq_v (S n) fr a b s =
+  if negb (is_nil (metafield s a s_mm_eq)) && raweq (metafield s a s_mm_eq) (metafield s b s_mm_eq)
+  then bind (call n fr (metafield s a s_mm_eq) [a; b] s) (fun vs s' => Ret (truthy (first vs)) s')
+  else Ret false s.
+Proof. exact eq_handler_lemma. Qed.
+Print Assumptions eq_only_same_handler.
+
+(* order *)
+Theorem comparison_result_is_truthiness : forall n fr ev a b s,
+  order_tm (S n) fr ev a b s =
+  if is_nil (metafield s a ev) then Ret None s
+  else if raweq (metafield s a ev) (metafield s b ev)
+       then bind (call n fr (metafield s a ev) [a; b] s) (fun vs s' => Ret (Some (truthy (first vs))) s')
+       else Ret None s.
+Proof. exact order_tm_lemma. Qed.
+Print Assumptions comparison_result_is_truthiness.
+
+Theorem lt_uses_lt_handler : forall n fr a b s,
+  order_prim a b = false ->
+  lt_v (S n) fr a b s =
+  if negb (beqb (tyname a) (tyname b)) then Err (VFault 4 (frames_line fr)) s else
+  bind (order_tm n fr s_mm_lt a b s)
+       (fun r => match r with Some t => ret t | None => fault 4 (frames_line fr) end).
+Proof. exact lt_handler_lemma. Qed.
+Print Assumptions lt_uses_lt_handler.
+
+Theorem le_fallback_not_lt : forall n fr a b s,
+  order_prim a b = false -> beqb (tyname a) (tyname b) = true ->
+  is_nil (metafield s a s_mm_le) = true ->
+  le_v (S (S n)) fr a b s =
+  bind (order_tm (S n) fr s_mm_lt b a s)
+       (fun r2 => match r2 with Some t => ret (negb t) | None => fault 4 (frames_line fr) end).
+Proof. exact le_fallback_not_lt_lemma. Qed.
+Print Assumptions le_fallback_not_lt.
+
+Theorem le_uses_le_then_lt : forall n fr a b s,
+  order_prim a b = false ->
+  le_v (S n) fr a b s =
+  if negb (beqb (tyname a) (tyname b)) then Err (VFault 4 (frames_line fr)) s else
+  bind (order_tm n fr s_mm_le a b s)
+       (fun r => match r with
+                 | Some t => ret t
+                 | None => fun s' => bind (order_tm n fr s_mm_lt b a s')
+                             (fun r2 => match r2 with Some t => ret (negb t) | None => fault 4 (frames_line fr) end)
+                 end).
+Proof. exact le_handler_lemma. Qed.
+Print Assumptions le_uses_le_then_lt.
+
+Theorem relational_result_is_boolean : forall n fr o a b s, is_rel o = true -> bool_result (binop_v n fr o a b s).
+Proof. exact rel_result_bool_lemma. Qed.
+Print Assumptions relational_result_is_boolean.
+
+(* __call inserts the object as first argument *)
+Theorem call_handler : forall n fr f args s, is_fun_or_builtin f = false ->
+  call (S n) fr f args s =
+  if is_nil (metafield s f s_mm_call) then Err (VFault 3 (frames_line fr)) s
+  else call n fr (metafield s f s_mm_call) (f :: args) s.
+Proof. exact call_handler_lemma. Qed.
+Print Assumptions call_handler.
+
+(* raw operations never invoke handlers *)
+Theorem rawget_never_calls : forall n fr r k rest s,
+  builtin_call (S n) fr BRawGet (VTab r :: k :: rest) s = Ret [rawget_of s r k] s.
+Proof. exact rawget_never_calls_lemma. Qed.
+Print Assumptions rawget_never_calls.
+
+Theorem rawset_never_calls : forall n fr r k x rest s, valid_key k = true ->
+  builtin_call (S n) fr BRawSet (VTab r :: k :: x :: rest) s = Ret [VTab r] (rawset_state s r k x).
+Proof. exact rawset_never_calls_lemma. Qed.
+Print Assumptions rawset_never_calls.
+
+Theorem rawequal_never_calls : forall n fr a b rest s,
+  builtin_call (S n) fr BRawEqual (a :: b :: rest) s = Ret [VBool (raweq a b)] s.
+Proof. exact rawequal_never_calls_lemma. Qed.
+Print Assumptions rawequal_never_calls.
+
+Theorem raw_ops_never_call : forall n fr r k rest s s',
+  t_kv (tab_of s r) = t_kv (tab_of s' r) ->
+  exists v, builtin_call (S n) fr BRawGet (VTab r :: k :: rest) s = Ret [v] s /\
+            builtin_call (S n) fr BRawGet (VTab r :: k :: rest) s' = Ret [v] s'.
+Proof. exact rawget_meta_independent_lemma. Qed.
+Print Assumptions raw_ops_never_call.
